@@ -3,7 +3,8 @@
    opsem (the meaning of the scalar operations) is universally quantified: any function of the operation
    (name, attributes) and the operand values; integer and float operations are covered uniformly. *)
 From Snax Require Import Base.Prelude Model.C20Phs Proofs.C20PhsProofs Proofs.C20DecodeProofs
-  Proofs.C20SearchProofs Proofs.C20AppendProofs Proofs.C20HistoryProofs.
+  Proofs.C20SearchProofs Proofs.C20AppendProofs Proofs.C20HistoryProofs Proofs.C20WfProofs
+  Proofs.C20HistoryFullProofs.
 
 (* valid_mapping_sem: if valid_mapping accepts the mux assignment mu for the kernel graph g against the
    abstract graph G, then G — with its mux switches set as mu says and its choose switches selecting g's
@@ -53,19 +54,37 @@ Theorem C20_embedded_decodable :
 Proof. exact embedded_decodable. Qed.
 Print Assumptions C20_embedded_decodable.
 
-(* history_correct: for every history gs (any length, any order) of kernel graphs as encode produces them
-   for attribute-free operations (kernel_ok) with a common number of data arguments, if the merge goes
-   through then EVERY kernel of the history decodes against the merged PE, the number of values equals
-   get_true_switches, and under them the merged PE computes exactly the kernel's function. *)
+(* append preserves the structural well-formedness of the abstract graph (alternatives non-empty, ids
+   unique, every switch argument drives exactly one choose op or mux) *)
+Theorem C20_append_pe_wf :
+  forall g' G G', pe_wf G = true -> append g' G = Some G' -> pe_wf G' = true.
+Proof. exact append_pe_wf. Qed.
+Print Assumptions C20_append_pe_wf.
+
+(* append_keeps, in terms of decode: merging a further kernel g' never makes an earlier (embedded) kernel g
+   undecodable nor changes the function it decodes to *)
+Theorem C20_append_keeps_decode :
+  forall opsem g g' G G',
+    pe_wf G = true -> kernel_ok g = true -> plain_pe G = true -> plain_pe g' = true -> pdata g = pdata G ->
+    embeds g G -> append g' G = Some G' ->
+    exists sw', decode G' g = Some sw' /\ embeds g G' /\
+                forall ins v swg, eval_pe opsem g swg ins = Some v -> eval_pe opsem G' sw' ins = Some v.
+Proof. exact append_keeps_decode. Qed.
+Print Assumptions C20_append_keeps_decode.
+
+(* history_correct: for every history gs (any length, any order) of kernel graphs as
+   convert_generic_body_to_phs produces them for attribute-free operations (kernel_ok, pe_wf: decidable, and
+   checked on every real encode result by L1) with a common number of data arguments: if the merge goes
+   through, then EVERY kernel of the history decodes against the merged PE, the number of values equals
+   get_true_switches, and under them the merged PE computes exactly the kernel's function on all inputs. *)
 Theorem C20_history_correct :
   forall opsem gs G,
     merge_all gs = Some G ->
-    (forall g, In g gs -> kernel_ok g = true /\ pdata g = pdata G) ->
-    pe_wf G = true ->
+    (forall g, In g gs -> kernel_ok g = true /\ pe_wf g = true /\ pdata g = pdata G) ->
     forall g, In g gs ->
       exists sw, decode G g = Some sw /\ true_switches G = Some (length sw) /\
                  forall ins v swg, eval_pe opsem g swg ins = Some v -> eval_pe opsem G sw ins = Some v.
-Proof. exact history_correct_wf. Qed.
+Proof. exact history_correct. Qed.
 Print Assumptions C20_history_correct.
 
 (* non-vacuity: two kernels with different routing and operations; the merged PE has a mux and a
@@ -95,7 +114,7 @@ Example C20_history_nonvacuous :
   exists g1 g2 g3 G,
     encode ex_b1 = Some g1 /\ encode ex_b2 = Some g2 /\ encode ex_b3 = Some g3 /\
     merge_all [g1; g2; g3] = Some G /\ pe_wf G = true /\
-    forallb (fun g => kernel_ok g && Nat.eqb (pdata g) (pdata G)) [g1; g2; g3] = true /\
+    forallb (fun g => kernel_ok g && pe_wf g && Nat.eqb (pdata g) (pdata G)) [g1; g2; g3] = true /\
     map (decode G) [g1; g2; g3] = [Some [0; 0; 0; 0; 0; 0; 0]; Some [1; 1; 1; 1; 1; 1; 0]; Some [2; 2; 0; 1; 0; 0; 1]].
 Proof.
   eexists _, _, _, _. repeat (split; [vm_compute; reflexivity|]). vm_compute. reflexivity.
